@@ -1,0 +1,141 @@
+// Copyright ©2026 The Gonum Authors. All rights reserved.
+// Use of this source code is governed by a BSD-style
+// license that can be found in the LICENSE file.
+
+//go:build verif
+
+package cmplxs
+
+// Machine-checked contracts for the slice helpers of this package
+// (verification hook, build tag verif; this file contains comments only).
+// The contract language and the checker are described in /verif/DESIGN.md.
+// The clauses mirror those of package floats; see that file.
+//
+// Not covered (outside the checker's subset): Count, EqualFunc, Find (call
+// through a function value), EqualLengths (slice of slices), Reverse
+// (slices.Reverse).
+
+// ---- element-wise updates of dst ----------------------------------------------
+
+//@ func Add Sub Mul MulConj Div props: C07(safety) C08
+//@ valid len(dst) == len(s)
+//@ panics iff !valid, before-writes
+//@ writes dst[k] for k in 0..len(dst)
+
+//@ func AddScaled props: C07(safety) C08
+//@ valid len(dst) == len(s)
+//@ panics iff !valid, before-writes
+//@ writes dst[k] for k in 0..len(dst)
+
+//@ func AddConst Scale props: C07(safety) C08
+//@ writes dst[k] for k in 0..len(dst)
+
+//@ func ScaleReal props: C07(safety) C08
+//@ writes dst[k] for k in 0..len(dst)
+
+// ---- dst = f(s, t) ------------------------------------------------------------
+
+//@ func Abs props: C07(safety) C08
+//@ valid len(dst) == len(s)
+//@ panics iff !valid, before-writes
+//@ writes dst[k] for k in 0..len(dst)
+
+//@ func AddTo SubTo MulTo MulConjTo DivTo props: C07(safety) C08
+//@ valid len(s) == len(t) && len(dst) == len(s)
+//@ panics iff !valid, before-writes
+//@ writes dst[k] for k in 0..len(dst)
+//@ ensures sameSlice(result, dst)
+
+//@ func AddScaledTo props: C07(safety) C08
+//@ valid len(s) == len(y) && len(dst) == len(y)
+//@ panics iff !valid, before-writes
+//@ writes dst[k] for k in 0..len(dst)
+//@ ensures sameSlice(result, dst)
+
+//@ func ScaleTo ScaleRealTo CumProd CumSum props: C07(safety) C08
+//@ valid len(dst) == len(s)
+//@ panics iff !valid, before-writes
+//@ writes dst[k] for k in 0..len(dst)
+//@ ensures sameSlice(result, dst)
+
+//@ func Complex props: C07(safety) C08
+//@ valid len(real) == len(imag) && len(dst) == len(real)
+//@ panics iff !valid, before-writes
+//@ writes dst[k] for k in 0..len(dst)
+//@ ensures sameSlice(result, dst)
+
+//@ func Real Imag props: C07(safety) C08
+//@ valid len(dst) == len(src)
+//@ panics iff !valid, before-writes
+//@ writes dst[k] for k in 0..len(dst)
+//@ ensures sameSlice(result, dst)
+
+// ---- reductions ---------------------------------------------------------------
+
+//@ func Dot props: C07(safety) C08
+//@ valid len(s1) == len(s2)
+//@ panics iff !valid, before-writes
+//@ writes nothing
+
+//@ func Distance props: C07(safety) C08
+//@ valid len(s) == len(t)
+//@ panics iff !valid, before-writes
+//@ writes nothing
+
+//@ func Norm Prod Sum props: C07(safety) C08
+//@ writes nothing
+
+// ---- index and search helpers -------------------------------------------------
+
+//@ func MaxAbsIdx MinAbsIdx props: C07(safety) C08
+//@ valid len(s) > 0
+//@ panics iff !valid, before-writes
+//@ writes nothing
+//@ ensures 0 <= result && result < len(s)
+
+//@ func MaxAbs MinAbs props: C07(safety) C08
+//@ option delegate-panics
+//@ valid len(s) > 0
+//@ panics iff !valid, before-writes
+//@ writes nothing
+
+//@ func NearestIdx props: C07(safety) C08
+//@ valid len(s) > 0
+//@ panics iff !valid, before-writes
+//@ writes nothing
+//@ ensures 0 <= result && result < len(s)
+
+// cmplx.IsNaN is an uninterpreted library function for the checker and has no
+// counterpart in the contract language, so HasNaN and Same carry no value clause.
+
+//@ func HasNaN props: C07(safety) C08
+//@ writes nothing
+
+// complex == is an uninterpreted predicate for the checker (not known to be
+// symmetric): the operands are written in the order used by the code.
+
+//@ func Equal props: C07(safety) C08
+//@ writes nothing
+//@ ensures result == (len(s1) == len(s2) && forall(k, 0, len(s1), s2[k] == s1[k]))
+//@ loop 1: invariant forall(k, 0, it, s2[k] == s1[k])
+
+//@ func Same props: C07(safety) C08
+//@ writes nothing
+//@ ensures len(s) != len(t) ==> !result
+
+//@ func EqualApprox props: C07(safety) C08
+//@ writes nothing
+//@ ensures len(s1) != len(s2) ==> !result
+
+//@ func Span props: C07(safety) C08
+//@ valid len(dst) >= 2
+//@ panics iff !valid, before-writes
+//@ writes dst[k] for k in 0..len(dst)
+//@ ensures sameSlice(result, dst)
+
+//@ func LogSpan props: C07(safety) C08
+//@ option delegate-panics
+//@ valid len(dst) >= 2
+//@ panics iff !valid, before-writes
+//@ writes dst[k] for k in 0..len(dst)
+//@ ensures sameSlice(result, dst)
